@@ -472,6 +472,10 @@ impl DnsCache {
             });
         }
 
+        if !expired_instances.is_empty() {
+            self.prune_subtypes();
+        }
+
         // SRV / TXT / NSEC records that no PTR points to are not reached by the
         // walk above: drop the expired ones as well (nobody is notified, no
         // browser ever saw an instance for them), and forget emptied entries.
@@ -483,6 +487,21 @@ impl DnsCache {
         }
 
         expired_instances
+    }
+
+    /// Forgets the subtype of the instances whose subtype PTR is no longer held.
+    fn prune_subtypes(&mut self) {
+        let ptr = &self.ptr;
+        self.subtype.retain(|instance, sub_domain| {
+            ptr.get(sub_domain).is_some_and(|records| {
+                records.iter().any(|r| {
+                    r.record
+                        .any()
+                        .downcast_ref::<DnsPointer>()
+                        .is_some_and(|p| p.alias() == instance)
+                })
+            })
+        });
     }
 
     /// Removes all records of a service type: PTR, SRV, TXT records and any ADDR records
@@ -516,6 +535,7 @@ impl DnsCache {
         }
 
         self.ptr.remove(ty_domain);
+        self.prune_subtypes();
 
         // Check all hostnames in `hosts`: for each hostname, check if any SRV record
         // has `hostname` as its host. If no such SRV, remove the ADDR records of this hostname.
@@ -824,6 +844,7 @@ impl DnsCache {
 
         // Remove any PTR entry that no longer has records.
         self.ptr.retain(|_, records| !records.is_empty());
+        self.prune_subtypes();
 
         // Clean up SRV and TXT records for fully removed instances.
         let all_removed: HashSet<&String> = removed_instances.values().flatten().collect();
